@@ -1,0 +1,46 @@
+//go:build verif
+
+package directive
+
+import (
+	"github.com/jsightapi/jsight-schema-go-library/bytes"
+)
+
+// Verification hooks (build tag "verif"): read-only accessors and exports of
+// unexported functions. Nothing here is compiled into a normal build.
+
+// VerifUnescapeParameter exposes unescapeParameter.
+func VerifUnescapeParameter(b []byte) []byte {
+	return unescapeParameter(bytes.Bytes(b))
+}
+
+// VerifKeywordCoords returns the file name and the [begin, end] byte span of the keyword.
+func (d Directive) VerifKeywordCoords() (string, uint, uint) {
+	name := ""
+	if d.keywordCoords.file != nil {
+		name = d.keywordCoords.file.Name()
+	}
+	return name, uint(d.keywordCoords.begin), uint(d.keywordCoords.end)
+}
+
+// VerifBodyCoords returns (set, file, begin, end) of the body.
+func (d Directive) VerifBodyCoords() (bool, string, uint, uint) {
+	if !d.BodyCoords.IsSet() {
+		return false, "", 0, 0
+	}
+	return true, d.BodyCoords.file.Name(), uint(d.BodyCoords.begin), uint(d.BodyCoords.end)
+}
+
+// VerifNamedParameters returns a copy of the named parameters.
+func (d Directive) VerifNamedParameters() map[string]string {
+	m := make(map[string]string, len(d.namedParameters))
+	for k, v := range d.namedParameters {
+		m[k] = v
+	}
+	return m
+}
+
+// VerifAllNames returns the directive names table.
+func VerifAllNames() []string {
+	return append([]string(nil), ss...)
+}
